@@ -586,3 +586,140 @@ func TestPropAccum(t *testing.T) {
 		}
 	})
 }
+
+const twoHandleRule = "two accumulator handles on one accumulator, both obtained before the history and used in a generated interleaving for position creation, share increases and decreases (plain and interval forms) in a history WITHOUT accumulator growth (with zero growth a handle's in-memory value per share cannot be stale, so every operation of the unchanged code is exact; what can be stale is the in-memory share total, which every share operation is documented to re-read); oracle after every step, through a fresh handle: recorded total shares == sum of position shares == model, every position's share count == model; non-trivial = both handles changed shares and a decrease followed an operation of the other handle; distinct by history hash"
+
+// TestPropAccumTwoHandles: the share total must be re-read from the store by every operation that changes it - two
+// handles that interleave must not lose each other's changes.
+func TestPropAccumTwoHandles(t *testing.T) {
+	drv.Check(t, drv.Cfg{Name: "accum-two-handles", Rule: twoHandleRule, Quick: 800, Thorough: 40000, Steps: 25, TSteps: 50}, func(rt *rapid.T, c *drv.Case) {
+		store := storetypes.KVStore(cachekv.NewStore(dbadapter.Store{DB: dbm.NewMemDB()}))
+		const accName = "acc"
+		if err := accum.MakeAccumulator(store, accName); err != nil {
+			rt.Fatalf("MakeAccumulator: %v", err)
+		}
+		hs := [2]*accum.AccumulatorObject{}
+		for i := range hs {
+			h, err := accum.GetAccumulator(store, accName)
+			if err != nil {
+				rt.Fatalf("GetAccumulator: %v", err)
+			}
+			hs[i] = h
+		}
+		shares := map[string]osmomath.Dec{}
+		names := []string{"1", "10", "2", "3", "p"}
+		zero := sdk.NewDecCoins()
+		var hist []string
+		used := [2]bool{}
+		last := -1
+		crossRemove := false
+		genShares := func(rt *rapid.T) osmomath.Dec {
+			return osmomath.NewDecWithPrec(rapid.Int64Range(1, 1_000_000_000).Draw(rt, "shares"), int64(rapid.IntRange(0, 6).Draw(rt, "prec")))
+		}
+		check := func() {
+			fr, err := accum.GetAccumulator(store, accName)
+			if err != nil {
+				rt.Fatalf("GetAccumulator: %v", err)
+			}
+			sum := osmomath.ZeroDec()
+			for _, n := range names {
+				want, ok := shares[n]
+				got, err := fr.GetPositionSize(n)
+				if !ok {
+					if err == nil {
+						rt.Fatalf("position %q exists with %s shares, the history never created it [%v]", n, got, hist)
+					}
+					continue
+				}
+				if err != nil || !got.Equal(want) {
+					rt.Fatalf("position %q holds %v shares (err %v), the history says %s [%v]", n, got, err, want, hist)
+				}
+				sum = sum.Add(want)
+			}
+			if !fr.GetTotalShares().Equal(sum) {
+				rt.Fatalf("recorded total shares %s != sum of position shares %s [%v]", fr.GetTotalShares(), sum, hist)
+			}
+		}
+		rt.Repeat(map[string]func(*rapid.T){
+			"new": func(rt *rapid.T) {
+				hi := rapid.IntRange(0, 1).Draw(rt, "handle")
+				n := names[rapid.IntRange(0, len(names)-1).Draw(rt, "name")]
+				if _, ok := shares[n]; ok {
+					rt.Skip("exists")
+				}
+				s := genShares(rt)
+				var err error
+				if rapid.Bool().Draw(rt, "interval") {
+					err = hs[hi].NewPositionIntervalAccumulation(n, s, zero, nil)
+				} else {
+					err = hs[hi].NewPosition(n, s, nil)
+				}
+				if err != nil {
+					rt.Fatalf("NewPosition(%s,%s) through handle %d: %v", n, s, hi, err)
+				}
+				shares[n] = s
+				used[hi], last = true, hi
+				hist = append(hist, fmt.Sprintf("h%d new %s %s", hi, n, s))
+			},
+			"add": func(rt *rapid.T) {
+				hi := rapid.IntRange(0, 1).Draw(rt, "handle")
+				n := names[rapid.IntRange(0, len(names)-1).Draw(rt, "name")]
+				cur, ok := shares[n]
+				if !ok {
+					rt.Skip("no such position")
+				}
+				s := genShares(rt)
+				var err error
+				switch rapid.IntRange(0, 2).Draw(rt, "form") {
+				case 0:
+					err = hs[hi].AddToPosition(n, s)
+				case 1:
+					err = hs[hi].AddToPositionIntervalAccumulation(n, s, zero)
+				default:
+					err = hs[hi].UpdatePositionIntervalAccumulation(n, s, zero)
+				}
+				if err != nil {
+					rt.Fatalf("add %s to %s through handle %d: %v", s, n, hi, err)
+				}
+				shares[n] = cur.Add(s)
+				used[hi], last = true, hi
+				hist = append(hist, fmt.Sprintf("h%d add %s %s", hi, n, s))
+			},
+			"remove": func(rt *rapid.T) {
+				hi := rapid.IntRange(0, 1).Draw(rt, "handle")
+				n := names[rapid.IntRange(0, len(names)-1).Draw(rt, "name")]
+				cur, ok := shares[n]
+				if !ok || !cur.IsPositive() {
+					rt.Skip("nothing to remove")
+				}
+				s := cur.MulInt64(rapid.Int64Range(1, 1000).Draw(rt, "permille")).QuoInt64(1000)
+				if !s.IsPositive() {
+					s = cur
+				}
+				var err error
+				switch rapid.IntRange(0, 2).Draw(rt, "form") {
+				case 0:
+					err = hs[hi].RemoveFromPosition(n, s)
+				case 1:
+					err = hs[hi].RemoveFromPositionIntervalAccumulation(n, s, zero)
+				default:
+					err = hs[hi].UpdatePositionIntervalAccumulation(n, s.Neg(), zero)
+				}
+				if err != nil {
+					rt.Fatalf("remove %s from %s through handle %d: %v", s, n, hi, err)
+				}
+				shares[n] = cur.Sub(s)
+				if last >= 0 && last != hi {
+					crossRemove = true
+				}
+				used[hi], last = true, hi
+				hist = append(hist, fmt.Sprintf("h%d remove %s %s", hi, n, s))
+			},
+			"": func(rt *rapid.T) { check() },
+		})
+		if used[0] && used[1] && crossRemove {
+			c.NonTrivial(strings.Join(hist, ";"))
+			c.Samplef("%s", strings.Join(hist, "; "))
+		}
+	})
+}
